@@ -90,6 +90,16 @@ CHECKS = {
          "Encoding pages and stored page MD5s (builder file exhaustively, CDN fixtures sampled), archive index footer [8..28) (parse and ChunkedArchiveIndex::open), every byte of .lru checkpoint files, update entries / update section / .idx loader, local headers for every base offset mod 4, real V1 responses produced by the server code (every byte before the Checksum line), and ContentAddressedCache / MultiLayerCacheImpl sequences with corruption of the backing store: a validating read never returns bytes whose MD5 differs from the key and a detected corruption removes the entry everywhere.",
          "Trusted: reference MD5 and lookup3; a case whose un-mutated artifact is rejected is vacuous and reported as infrastructure trouble. A raw status byte that aliases to the same entry is counted, not reported. toc_hash is documented as unchecked and excluded.",
          "DESIGN.md §3 C07"),
+ "C11": ("sched", "exploration",
+         "deterministic schedule exploration: every concurrent task is an OS thread with its own current-thread runtime, a baton scheduler driven by the verif-hooks sched_point call sites lets the generated schedule pick the next thread at every shared-state access; exhaustive DFS over all interleavings with a pre-emption bound for 2x2 programs, proptest-generated programs and schedules beyond; oracle = Wing-Gong linearizability search against the sequential cache model + bookkeeping sweep",
+         "MemoryCache (1,998 one-key 2x2 programs x 3 set-ups at <= 3 pre-emptions, 9,770 two-key programs at <= 2: 650k schedules), DiskCache (<= 2 pre-emptions) and DynamicContainer (<= 3) are explored exhaustively; random sections run 2-3 tasks x 1-3 ops over up to 3 keys, and an eviction section with max_entries 1-3. Judged: a linearization exists, no torn/foreign value, no error without a conflicting overlapping op, counters equal contents after the sweep, no panic.",
+         "Interleavings only at the 40 hook sites (none where a lock guard is held); races inside DashMap/parking_lot and real multi-core memory ordering are outside the hook granularity. A failing run is attributed to a known key when that key's racing pairs are a subset of the run's. A hand-over that does not complete within 60 s is infrastructure trouble (exit 2).",
+         "DESIGN.md §3 C11, §4"),
+ "C15": ("net+pbt", "exploration",
+         "generated build databases served by the REAL Ribbit TCP (v1, v2) and HTTP servers on loopback ports and read back by this project's own clients (incl. V1 MIME checksum verification); oracle = the generated database (newest build by instant, ties accepted); plus generated hostile request lines from concurrent clients with a liveness probe",
+         "An enumeration of 263 single-feature databases (18 special strings x {product, version, cdn_path} x {start, middle, end, alone}, build/keyring/hash-case/tie/UTC-offset variants) and proptest databases (1-6 products, 1-4 builds, adversarial strings, mixed offsets, ties); every product x {versions, cdns, bgdl} x {RibbitClient v1, v2, TactClient http} + v1 summary is compared by typed column. Hostile traffic: unknown product/endpoint, wrong arity, empty, 64 KiB, non-UTF-8, unknown version prefix, HTTP garbage (thorough: never-terminated and bursts) must get an error or a close, never data, while a well-formed probe keeps being answered; server task panics are detected.",
+         "Real kernel sockets on the loopback; the multi-client clause interleaves tasks on one runtime thread and is best effort; a probe counts as unanswered only after 4 missed attempts (>= 2 minutes); other watchdog hits are infrastructure trouble.",
+         "DESIGN.md §3 C15"),
 }
 
 NOT_YET = "check not built yet in this session (work in progress; see DESIGN.md §3 for the planned generator and oracle)"
